@@ -1,5 +1,5 @@
 import PsV.Proofs.Fits
-import PsV.Proofs.FitsBytes
+import PsV.Proofs.FitsCodec
 /-!
 # What `write_fits_core` writes is inside the byte codec's round-trip domain
 
